@@ -35,9 +35,17 @@ module Nat :
   val leb : nat -> nat -> bool
 
   val ltb : nat -> nat -> bool
+
+  val divmod : nat -> nat -> nat -> nat -> nat * nat
+
+  val div : nat -> nat -> nat
  end
 
+val nth : nat -> 'a1 list -> 'a1 -> 'a1
+
 val last : 'a1 list -> 'a1 -> 'a1
+
+val removelast : 'a1 list -> 'a1 list
 
 val rev : 'a1 list -> 'a1 list
 
@@ -50,6 +58,8 @@ val fold_left : ('a1 -> 'a2 -> 'a1) -> 'a2 list -> 'a1 -> 'a1
 val fold_right : ('a2 -> 'a1 -> 'a1) -> 'a1 -> 'a2 list -> 'a1
 
 val existsb : ('a1 -> bool) -> 'a1 list -> bool
+
+val forallb : ('a1 -> bool) -> 'a1 list -> bool
 
 val filter : ('a1 -> bool) -> 'a1 list -> 'a1 list
 
@@ -107,9 +117,21 @@ module Z :
 
   val add : z -> z -> z
 
+  val opp : z -> z
+
+  val sub : z -> z -> z
+
   val compare : z -> z -> comparison
 
+  val leb : z -> z -> bool
+
   val ltb : z -> z -> bool
+
+  val eqb : z -> z -> bool
+
+  val max : z -> z -> z
+
+  val abs : z -> z
  end
 
 type syll = nat
@@ -309,6 +331,9 @@ val consume_delims : text -> text -> nat -> nat
 
 type ms_state = (nat list * wgraph) * (nat * chunk list) list
 
+val coll_put :
+  nat -> chunk list -> (nat * chunk list) list -> (nat * chunk list) list
+
 val ms_at :
   nat -> prism -> (nat * text) list -> table -> text -> text -> ms_state ->
   nat -> ms_state
@@ -335,3 +360,126 @@ val table_query_gen :
 val table_query :
   (wgraph -> nat -> sentence option) -> bool -> bool -> nat -> prism ->
   (nat * text) list -> table -> text -> text -> cand list
+
+type comp = { cp_ent : dentry; cp_end : nat; cp_w : z }
+
+type line = comp list
+
+val l_empty : line -> bool
+
+val l_weight : line -> z
+
+val last_word : line -> text
+
+val l_context : line -> text
+
+val diffs : nat -> nat list -> nat list
+
+val word_lengths : line -> nat list
+
+val lex_lt : nat list -> nat list -> bool
+
+val compare_weight : line -> line -> bool
+
+val left_associate_compare : line -> line -> bool
+
+val sentence_of : line -> sentence
+
+val put : nat -> 'a1 -> (nat * 'a1) list -> (nat * 'a1) list
+
+val evaluate :
+  (text -> text -> bool -> z) option -> z -> text -> dentry -> bool -> z
+
+val new_line :
+  (text -> text -> bool -> z) option -> z -> text -> line -> nat -> bool ->
+  dentry -> line
+
+val better : (line -> line -> bool) -> line -> line -> line
+
+type dp_states = (nat * line) list
+
+val dp_edge :
+  (text -> text -> bool -> z) option -> z -> (line -> line -> bool) -> text
+  -> nat -> nat -> line -> dp_states -> (nat * dentry list) -> dp_states
+
+val dp_step :
+  (text -> text -> bool -> z) option -> z -> (line -> line -> bool) -> text
+  -> nat -> dp_states -> (nat * (nat * dentry list) list) -> dp_states
+
+val dp_run :
+  (text -> text -> bool -> z) option -> z -> (line -> line -> bool) -> text
+  -> wgraph -> nat -> dp_states
+
+val dp_sentence :
+  (text -> text -> bool -> z) option -> z -> (line -> line -> bool) -> text
+  -> wgraph -> nat -> sentence option
+
+type bstate = (text * line) list
+
+val bs_find : text -> bstate -> line option
+
+val bs_put : text -> line -> bstate -> bstate
+
+val upper_bound : nat -> (line -> bool) -> line list -> nat -> nat -> nat
+
+val k_max_line_candidates : nat
+
+val top_insert : (line -> line -> bool) -> line list -> line -> line list
+
+val find_top : (line -> line -> bool) -> bstate -> line list
+
+val beam_entry :
+  (text -> text -> bool -> z) option -> z -> (line -> line -> bool) -> text
+  -> line -> nat -> bool -> bstate -> dentry -> bstate
+
+type beam_states = (nat * bstate) list
+
+val beam_edge :
+  (text -> text -> bool -> z) option -> z -> (line -> line -> bool) -> text
+  -> nat -> nat -> line -> beam_states -> (nat * dentry list) -> beam_states
+
+val beam_step :
+  (text -> text -> bool -> z) option -> z -> (line -> line -> bool) -> text
+  -> nat -> beam_states -> (nat * (nat * dentry list) list) -> beam_states
+
+val beam_run :
+  (text -> text -> bool -> z) option -> z -> (line -> line -> bool) -> text
+  -> wgraph -> nat -> beam_states
+
+val best_in_state : (line -> line -> bool) -> bstate -> line
+
+val beam_sentence :
+  (text -> text -> bool -> z) option -> z -> (line -> line -> bool) -> text
+  -> wgraph -> nat -> sentence option
+
+val make_sentence :
+  (text -> text -> bool -> z) option -> z -> (line -> line -> bool) -> text
+  -> wgraph -> nat -> sentence option
+
+val increments : line -> z list
+
+val zlist_eqb : z list -> z list -> bool
+
+val safe_pair : z -> bool -> line -> line -> bool
+
+val dp_robust :
+  (text -> text -> bool -> z) option -> z -> (line -> line -> bool) -> text
+  -> z -> bool -> wgraph -> nat -> bool
+
+val all_pairs : ('a1 -> 'a1 -> bool) -> 'a1 list -> bool
+
+val beam_robust :
+  (text -> text -> bool -> z) option -> z -> (line -> line -> bool) -> text
+  -> z -> bool -> wgraph -> nat -> bool
+
+val robust :
+  (text -> text -> bool -> z) option -> z -> (line -> line -> bool) -> text
+  -> z -> bool -> wgraph -> nat -> bool
+
+val poet_script : z -> wgraph -> nat -> sentence option
+
+val poet_table : z -> wgraph -> nat -> sentence option
+
+val best_match : dentry -> dentry list -> z option
+
+val chain_weight : z -> wgraph -> nat -> sentence -> z option
